@@ -18,6 +18,12 @@ const FLAG_AWARE_BUDGET: u64 = 3_000_000;
 fn run_one(sc: &Scenario, call: &Call, budget: u64) -> Result<(CallOutcome, u64), String> {
     let mut one = sc.clone();
     one.threads = vec![vec![Op::Call(call.clone())]];
+    if let Ok(mut pre) = serde_json::from_value::<Call>(sc.expect["pre"].clone()) {
+        // the earlier parse runs under the same memo configuration, on the same thread
+        pre.memo_capacity = call.memo_capacity;
+        pre.flag_aware = call.flag_aware;
+        one.threads = vec![vec![Op::Call(pre), Op::Call(call.clone())]];
+    }
     one.schedule = Schedule::Solo;
     one.knobs.step_budget = budget;
     let out = exec(&one, &ExecOpts::default());
@@ -25,7 +31,7 @@ fn run_one(sc: &Scenario, call: &Call, budget: u64) -> Result<(CallOutcome, u64)
         return Err(e);
     }
     let steps = out.steps;
-    out.calls.into_iter().next().map(|o| (o, steps)).ok_or_else(|| "no outcome".to_string())
+    out.calls.into_iter().last().map(|o| (o, steps)).ok_or_else(|| "no outcome".to_string())
 }
 
 fn accept(o: &CallOutcome) -> Option<u64> {
@@ -151,6 +157,18 @@ impl Property for C17 {
         let mut base = Call::new(api, "t.sv");
         base.text = Some(text);
         base.allow_incomplete = rng.chance(1, 4);
+        if api.is_raw() && rng.chance(1, 4) {
+            // "which entries survive": an earlier parse on the same thread, on the adjacent slice of the same
+            // buffer (or on the same address), must not matter at any capacity
+            let first = if rng.coin() { gen::corpus_sv(&mut rng, 600).to_string() } else { gen::sensitive_probe(&mut rng) };
+            let mut pre = Call::new(api, "t.sv");
+            pre.text = Some(first.clone());
+            pre.slot = Some(0);
+            base.slot = Some(0);
+            base.slot_off = if rng.coin() { first.len() } else { 0 };
+            sc.expect = serde_json::json!({ "pre": pre });
+            sc.family = format!("{}+earlier-parse", api.name());
+        }
         let mut ops = vec![Op::Call(base.clone())];
         let mut caps: Vec<usize> = CAPS.to_vec();
         caps.push(1 + rng.usize_below(40));
@@ -161,7 +179,9 @@ impl Property for C17 {
             ops.push(Op::Call(k));
         }
         sc.threads = vec![ops];
-        sc.family = api.name().to_string();
+        if sc.family.is_empty() {
+            sc.family = api.name().to_string();
+        }
         sc
     }
 
@@ -169,7 +189,7 @@ impl Property for C17 {
         let calls: Vec<&Call> = sc.calls().collect();
         calls.len() >= 2
             && calls.iter().all(|c| c.text.is_some() && !c.flag_aware)
-            && calls.windows(2).all(|w| w[0].text == w[1].text && w[0].api == w[1].api && w[0].allow_incomplete == w[1].allow_incomplete)
+            && calls.windows(2).all(|w| w[0].text == w[1].text && w[0].api == w[1].api && w[0].allow_incomplete == w[1].allow_incomplete && w[0].slot == w[1].slot && w[0].slot_off == w[1].slot_off)
     }
 
     fn shrink(&self, sc: &Scenario) -> Vec<Scenario> {
